@@ -94,6 +94,8 @@ fn scenarios() -> Vec<Scenario> {
         mk("byref-array-element", "DIM A%(3)\nA%(2) = 5\nP A%(2)\nPRINT A%(2); A%(1)\nEND\nSUB P (X%)\nX% = X% * 2\nEND SUB\n", &[" 10  0 "]),
         mk("byref-record-field", "TYPE T\nN AS INTEGER\nM AS INTEGER\nEND TYPE\nDIM R AS T\nR.N = 3\nP R.N\nPRINT R.N; R.M\nEND\nSUB P (X%)\nX% = X% + 4\nEND SUB\n", &[" 7  0 "]),
         mk("byval-converted", "A% = 7\nP (A%)\nP A% + 0.4\nPRINT A%\nEND\nSUB P (X&)\nPRINT X&\nX& = X& + 100000\nEND SUB\n", &[" 7 ", " 7 ", " 7 "]),
+        mk("writeback-with-call-in-index", "DIM SA$(3)\nSA$(1) = \"a\"\nX% = 0\nY% = 7\nG SA$(F1%(X%)), Y%\nPRINT X%; Y%; SA$(1)\nEND\nFUNCTION F1% (N%)\nF1% = N% + 1\nEND FUNCTION\nSUB G (S$, M%)\nS$ = \"changed\"\nM% = 9\nEND SUB\n", &[" 0  9 changed"]),
+        mk("function-result-with-call-in-index", "DIM SA$(3)\nSA$(3) = \"hello\"\nPRINT LEN(SA$(F1%(2)))\nEND\nFUNCTION F1% (N%)\nF1% = N% + 1\nEND FUNCTION\n", &[" 5 "]),
         mk("writeback-left-to-right", "A% = 1\nP A%, A%\nPRINT A%\nEND\nSUB P (X%, Y%)\nX% = 10\nY% = 20\nEND SUB\n", &[" 20 "]),
         mk("fresh-locals-per-call", "P\nP\nEND\nSUB P\nPRINT L%\nL% = L% + 1\nEND SUB\n", &[" 0 ", " 0 "]),
         mk("fresh-locals-recursion", "PRINT F%(3)\nEND\nFUNCTION F% (N%)\nL% = N%\nIF N% > 0 THEN T% = F%(N% - 1)\nF% = L% * 10 + T%\nEND FUNCTION\n", &[" 60 "]),
@@ -306,6 +308,6 @@ pub fn run(args: &Args) {
     sum.write(
         &args.out,
         evaluations,
-        "unit level: seeded random sequences (3-16 operations, preconditions respected as the generated code does) of begin/stop collecting arguments, STATIC entry under three names, pop, array-argument drop and error-handler push on the real Context; after every operation the state stack, reference counts, static flags, block identities (marker variable) and static map are compared with Ctx.run_ops in Coq. Program level: 23 scenarios (argument shapes, write-back order, fresh locals incl. recursion, function results and defaults, STATIC from everywhere, SHARED, CONST, nested calls) and generated histories of three STATIC counters called from main and through nested ordinary wrappers, with the output predicted by direct evaluation. Non-trivial = distinct operation sequences / histories.",
+        "unit level: seeded random sequences (3-16 operations, preconditions respected as the generated code does) of begin/stop collecting arguments, STATIC entry under three names, pop, array-argument drop and error-handler push on the real Context; after every operation the state stack, reference counts, static flags, block identities (marker variable) and static map are compared with Ctx.run_ops in Coq. Program level: 25 scenarios (argument shapes, write-back order, fresh locals incl. recursion, function results and defaults, STATIC from everywhere, SHARED, CONST, nested calls) and generated histories of three STATIC counters called from main and through nested ordinary wrappers, with the output predicted by direct evaluation. Non-trivial = distinct operation sequences / histories.",
     );
 }
